@@ -3,8 +3,6 @@ package vuego
 import (
 	"path"
 	"strings"
-
-	"github.com/titpetric/vuego/internal/ulid"
 )
 
 // VueContext carries template inclusion context and request-scoped state used during evaluation.
@@ -109,9 +107,4 @@ func (ctx VueContext) CurrentTag() string {
 // This allows functions with *VueContext parameters to resolve variables from the execution scope.
 func (ctx VueContext) Stack() *Stack {
 	return ctx.stack
-}
-
-// nextSeenID returns a unique ID for tracking v-once elements across deep clones.
-func (ctx *VueContext) nextSeenID() string {
-	return ulid.String()
 }
